@@ -258,7 +258,7 @@ def long_history(ctx):
 
 def run(ctx) -> None:
     logcap.install()
-    depth, maxlog = (7, 5) if ctx.quick else (9, 6)
+    depth, maxlog = (7, 5) if ctx.quick else (11, 7)
     seen, transitions, viol, vcount, maxd = explore(depth, maxlog, ctx)
     steps, lv = long_history(ctx)
     viol.update(lv)
